@@ -19,7 +19,6 @@ UNDEFINED = {
     "cg-destination": "R3 with Ad=1 is not a destination addressing mode",
     "rmw-constant": "single-operand read-modify-write of an immediate / generated constant has no destination",
     "flags-and-sr-dest": "destination SR in register mode of an instruction that also sets the status bits",
-    "push-sp": "PUSH with SP as operand register: operation text and Figure 3-5 disagree about the value pushed",
     "push-byte": "PUSH.B: the guide does not define the high byte of the stack word",
     "dadd-non-bcd": "DADD on operands with a digit above 9",
 }
@@ -159,9 +158,8 @@ def _step(cpu):
             raise Undefined("byte-form")
         msb = 0x80 if bw else 0x8000
         mask = 0xff if bw else M16
-        if op == 4:      # PUSH
-            if reg == 1:
-                raise Undefined("push-sp")
+        if op == 4:      # PUSH: "SP - 2 -> SP, src -> @SP" -- the source (SP, x(SP), @SP, @SP+ included) is
+            #                  evaluated with the decremented SP
             if bw:
                 raise Undefined("push-byte")
             cpu.r[1] = (cpu.r[1] - 2) & M16
